@@ -168,7 +168,7 @@ def _insert_vacuity_probe(woven):
             else:
                 continue
         if s == '{' or (s.endswith('{') and not re.search(r'\b(forall|exists|match|if|else|implies|choose)\b|==>|\|', s) and re.search(r'^(pub\s+)?(fn\b|\)|->)|\)\s*(->[^{]*)?\{$', s)):
-            lines[k] = ln + ' assert(false);'
+            lines[k] = ln + ' assert(false); /*vacuity-probe*/'
             return '\n'.join(lines)
     return woven
 
